@@ -270,38 +270,51 @@ def Layer.isAuth : Layer → Bool
   | .auth _ _ => true
   | _ => false
 
-theorem runChain_append (auth : Option String) (a b : List Layer) (ha : ∀ l ∈ a, l.isAuth = false) :
+theorem runChain_append (auth : Option String) (a b : List Layer) (ha : ∀ l ∈ a, l.isAuth = false ∧ l.stops = false) :
     runChain auth (a ++ b) = (a.map Layer.tag ++ (runChain auth b).1, (runChain auth b).2) := by
   induction a with
   | nil => rfl
   | cons l a ih =>
-    have hl := ha l (List.mem_cons_self ..)
+    obtain ⟨hl, hs⟩ := ha l (List.mem_cons_self ..)
     have ih' := ih fun x hx => ha x (List.mem_cons_of_mem _ hx)
     cases l with
     | auth x y => cases hl
-    | chainMw i => simp only [List.cons_append, runChain, ih', List.map_cons]
-    | use k => simp only [List.cons_append, runChain, ih', List.map_cons]
-    | routeMw i => simp only [List.cons_append, runChain, ih', List.map_cons]
+    | chainMw i => simp only [List.cons_append, runChain, hs, ih', List.map_cons]; rfl
+    | use k => simp only [List.cons_append, runChain, hs, ih', List.map_cons]; rfl
+    | routeMw i => simp only [List.cons_append, runChain, hs, ih', List.map_cons]; rfl
+
+/-- a user middleware that answers itself ends the way down: nothing behind it runs, the handler is not reached. -/
+theorem runChain_stops (auth : Option String) (l : Layer) (rest : List Layer) (ha : l.isAuth = false)
+    (hs : l.stops = true) : runChain auth (l :: rest) = ([l.tag], .stopped) := by
+  cases l with
+  | auth x y => cases ha
+  | chainMw i => simp only [runChain, hs, if_true]
+  | use k => simp only [runChain, hs, if_true]
+  | routeMw i => simp only [runChain, hs, if_true]
 
 /-- **The route handler is reached iff the group's own JWT settings accept the token** — whatever custom chain
-(`WithChain`), `Server.Use` middlewares and `rest.WithMiddlewares` wrappers surround it; the custom chain's
-middlewares run first (also in front of a 401), the `Use` middlewares (in `Use` order) and then the route's own
-middlewares run only behind the Authorize handler. -/
+(`WithChain`), `Server.Use` middlewares and `rest.WithMiddlewares` wrappers surround it, as long as these call `next`
+(ids below 900); the custom chain's middlewares run first (also in front of a 401), the `Use` middlewares (in `Use`
+order) and then the route's own middlewares run only behind the Authorize handler. -/
 theorem chain_reaches_handler_iff (chain : Option Nat) (jwt : Option (String × String)) (uses : List Nat) (nmw : Nat)
-    (auth : Option String) :
-    (runChain auth (bindChain chain jwt uses nmw)).2 = tokenOk jwt auth ∧
+    (auth : Option String) (hc : chain.getD 0 < 900) (hu : ∀ k ∈ uses, k < 900) (hn : nmw < 900) :
+    (runChain auth (bindChain chain jwt uses nmw)).2 = (if tokenOk jwt auth then .handler else .unauthorized) ∧
     (runChain auth (bindChain chain jwt uses nmw)).1 =
       ((List.range (chain.getD 0)).map fun i => "c" ++ toString (i + 1)) ++
       (if tokenOk jwt auth then uses.map (fun k => "u" ++ toString k) ++ (List.range nmw).map (fun i => toString (i + 1))
        else []) := by
-  have hA : ∀ l ∈ (List.range (chain.getD 0)).map (fun i => Layer.chainMw (i + 1)), l.isAuth = false := by
-    intro l hl; simp only [List.mem_map] at hl; obtain ⟨i, _, rfl⟩ := hl; rfl
-  have hUM : ∀ l ∈ uses.map Layer.use ++ (List.range nmw).map (fun i => Layer.routeMw (i + 1)), l.isAuth = false := by
+  have hA : ∀ l ∈ (List.range (chain.getD 0)).map (fun i => Layer.chainMw (i + 1)), l.isAuth = false ∧ l.stops = false := by
+    intro l hl; simp only [List.mem_map, List.mem_range] at hl; obtain ⟨i, hi, rfl⟩ := hl
+    exact ⟨rfl, by simp only [Layer.stops, decide_eq_false_iff_not]; omega⟩
+  have hUM : ∀ l ∈ uses.map Layer.use ++ (List.range nmw).map (fun i => Layer.routeMw (i + 1)),
+      l.isAuth = false ∧ l.stops = false := by
     intro l hl
-    simp only [List.mem_append, List.mem_map] at hl
-    rcases hl with ⟨k, _, rfl⟩ | ⟨i, _, rfl⟩ <;> rfl
+    simp only [List.mem_append, List.mem_map, List.mem_range] at hl
+    rcases hl with ⟨k, hk, rfl⟩ | ⟨i, hi, rfl⟩
+    · exact ⟨rfl, by have := hu k hk; simp only [Layer.stops, decide_eq_false_iff_not]; omega⟩
+    · exact ⟨rfl, by simp only [Layer.stops, decide_eq_false_iff_not]; omega⟩
   have hum : runChain auth (uses.map Layer.use ++ (List.range nmw).map (fun i => Layer.routeMw (i + 1))) =
-      (uses.map (fun k => "u" ++ toString k) ++ (List.range nmw).map (fun i => toString (i + 1)), true) := by
+      (uses.map (fun k => "u" ++ toString k) ++ (List.range nmw).map (fun i => toString (i + 1)), .handler) := by
     have := runChain_append auth _ [] hUM
     simp only [List.append_nil] at this
     rw [this]
@@ -321,9 +334,43 @@ theorem chain_reaches_handler_iff (chain : Option Nat) (jwt : Option (String × 
     · have : tokenOk (some (a, b)) auth = false := by simpa using hok
       simp [this, Function.comp_def, Layer.tag]
 
-example : runChain (some "s1") (bindChain (some 2) (some ("s2", "s1")) [7] 1) = (["c1", "c2", "u7", "1"], true) := by decide
-example : runChain (some "zz") (bindChain (some 2) (some ("s2", "s1")) [7] 1) = (["c1", "c2"], false) := by decide
-example : runChain none (bindChain none none [1, 2] 0) = (["u1", "u2"], true) := by decide
+/-- **A `Server.Use` middleware that does not call `next` short-circuits every route**: with an accepted token the
+middlewares in front of it run (custom chain, the earlier `Use` ones, itself), then NOTHING else — no later
+middleware, not the route handler; a rejected token is still answered 401 before any `Use` middleware runs. -/
+theorem chain_short_circuit (chain : Option Nat) (jwt : Option (String × String)) (pre post : List Nat) (k nmw : Nat)
+    (auth : Option String) (hc : chain.getD 0 < 900) (hp : ∀ x ∈ pre, x < 900) (hk : k ≥ 900) :
+    runChain auth (bindChain chain jwt (pre ++ k :: post) nmw) =
+      (((List.range (chain.getD 0)).map fun i => "c" ++ toString (i + 1)) ++
+        (if tokenOk jwt auth then pre.map (fun x => "u" ++ toString x) ++ ["u" ++ toString k] else []),
+       if tokenOk jwt auth then .stopped else .unauthorized) := by
+  have hA : ∀ l ∈ (List.range (chain.getD 0)).map (fun i => Layer.chainMw (i + 1)), l.isAuth = false ∧ l.stops = false := by
+    intro l hl; simp only [List.mem_map, List.mem_range] at hl; obtain ⟨i, hi, rfl⟩ := hl
+    exact ⟨rfl, by simp only [Layer.stops, decide_eq_false_iff_not]; omega⟩
+  have hP : ∀ l ∈ pre.map Layer.use, l.isAuth = false ∧ l.stops = false := by
+    intro l hl; simp only [List.mem_map] at hl; obtain ⟨x, hx, rfl⟩ := hl
+    exact ⟨rfl, by have := hp x hx; simp only [Layer.stops, decide_eq_false_iff_not]; omega⟩
+  have hstop : ∀ rest, runChain auth (pre.map Layer.use ++ (Layer.use k :: rest)) =
+      (pre.map (fun x => "u" ++ toString x) ++ ["u" ++ toString k], .stopped) := by
+    intro rest
+    rw [runChain_append auth _ _ hP, runChain_stops auth (.use k) rest rfl (by simp [Layer.stops, hk])]
+    simp [Layer.tag, Function.comp_def]
+  unfold bindChain
+  rw [List.append_assoc, List.append_assoc, runChain_append auth _ _ hA]
+  simp only [List.map_map, List.map_append, List.map_cons, List.append_assoc, List.cons_append]
+  cases jwt with
+  | none => simp [hstop, tokenOk, Function.comp_def, Layer.tag]
+  | some ab =>
+    obtain ⟨a, b⟩ := ab
+    simp only [List.cons_append, List.nil_append, runChain]
+    by_cases hok : tokenOk (some (a, b)) auth = true
+    · simp [hok, hstop, Function.comp_def, Layer.tag]
+    · have : tokenOk (some (a, b)) auth = false := by simpa using hok
+      simp [this, Function.comp_def, Layer.tag]
+
+example : runChain (some "s1") (bindChain (some 2) (some ("s2", "s1")) [7] 1) = (["c1", "c2", "u7", "1"], .handler) := by decide
+example : runChain (some "zz") (bindChain (some 2) (some ("s2", "s1")) [7] 1) = (["c1", "c2"], .unauthorized) := by decide
+example : runChain none (bindChain none none [1, 2] 0) = (["u1", "u2"], .handler) := by decide
+example : runChain none (bindChain (some 1) none [1, 901, 2] 3) = (["c1", "u1", "u901"], .stopped) := by decide
 
 /-! ### the driver's enumeration of all iteration orders -/
 
